@@ -243,7 +243,9 @@ func cmdCheck(args []string) int {
 			if q.Result.Status == "sat" {
 				r.Status = "covered"
 			} else if q.Result.Status != "unsat" && r.Status == "vacuous" {
-				r.Status = "undecided"
+				// the reachability query itself was not decided (solver limit): recorded, not an alarm -
+				// only a cover that is REFUTED on every path (unsat) shows a vacuous clause
+				r.Status = "cover-undecided"
 				r.Detail = q.Result.Status
 			}
 			continue
@@ -332,6 +334,7 @@ func cmdCheck(args []string) int {
 	// ---- report
 	nOb, nDis := 0, 0
 	var knownHit []string
+	var coverUndecided []string
 	var violations []string
 	replayDir := filepath.Join(*outdir, "replays", *prop)
 	os.RemoveAll(replayDir)
@@ -344,7 +347,10 @@ func cmdCheck(args []string) int {
 			solverCount[s]++
 		}
 		solverMs += r.Ms
-		ok := r.Status == "discharged" || r.Status == "covered"
+		ok := r.Status == "discharged" || r.Status == "covered" || r.Status == "cover-undecided"
+		if r.Status == "cover-undecided" {
+			coverUndecided = append(coverUndecided, n)
+		}
 		if r.Kind == "prove" {
 			nOb++
 			if ok {
@@ -384,6 +390,30 @@ func cmdCheck(args []string) int {
 		}
 		violations = append(violations, fmt.Sprintf("VIOLATION property=%s replay=%s%s", *prop, path, suffix))
 		nOb++
+	}
+	// ---- bounded stand-ins for code that is not under contract (run on every check)
+	var boundedEv map[string]interface{}
+	if *only == "" && hasBounded(*verif, *prop) {
+		br := runOverlayTests(*verif, *repo, *prop, nil, "TestVerifBounded")
+		boundedEv = map[string]interface{}{"label": "bounded", "ran": br.Ran, "failed": br.Failed, "cmds": br.Cmds, "test_files": br.Files,
+			"note": "bounded stand-in for functions outside the verifier's reach; the bound is stated in the test file; not counted as proved"}
+		if br.Failed {
+			r := &obResult{Name: "bounded:" + *prop, Kind: "prove", Status: "bounded-test-failed", Detail: "the bounded stand-in test fails on the real code:\n" + br.Output}
+			path := writeReplay(replayDir, *prop, r, true, *repo)
+			if b, err := os.ReadFile(path); err == nil {
+				var m map[string]interface{}
+				if json.Unmarshal(b, &m) == nil {
+					m["replayed_on_code"] = true
+					m["replay_test_files"] = br.Files
+					m["replay_cmds"] = br.Cmds
+					m["replay_output"] = br.Output
+					nb, _ := json.MarshalIndent(m, "", " ")
+					os.WriteFile(path, nb, 0o644)
+				}
+			}
+			violations = append(violations, fmt.Sprintf("VIOLATION property=%s replay=%s", *prop, path))
+			nOb++
+		}
 	}
 	for _, e := range engineErrs {
 		r := &obResult{Name: "engine:" + sanitizeFile(e), Kind: "prove", Status: "engine-error", Detail: e}
@@ -445,6 +475,8 @@ func cmdCheck(args []string) int {
 			"samples":                  samples,
 			"obligation_names":         order,
 			"known_findings_open":      knownHit,
+			"covers_undecided":         coverUndecided,
+			"bounded_standin":          boundedEv,
 		},
 		"assumptions": assumptions,
 		"wall_s":      time.Since(start).Seconds(),
